@@ -186,6 +186,32 @@ func render(c caseT) (root M, files map[string]M, inlined M) {
 		site := func(x M) M { return M{"get": M{"responses": M{"200": M{"description": "ok", "content": M{"application/json": M{"schema": x}}}}}} }
 		root = doc(c.Kind, M{"/a": site(M{"$ref": "#/components/schemas/C1", kw: val}), "/b": site(M{"$ref": "#/components/schemas/C1"})}, comps)
 		inlined = doc(c.Kind, M{"/a": site(M{"type": "integer", kw: val}), "/b": site(M{"type": "integer"})}, nil)
+	case "mapping":
+		// other.json: Pet = oneOf(dog.json, cat.json) with a discriminator whose mapping names the
+		// variants by file name (tried first as "#/components/schemas/dog.json" of other.json: a
+		// lookup that fails by design), and a decoy Err. The root's own Err is referred to locally
+		// after Pet was resolved in the same context.
+		files["dog.json"] = M{"type": "object", "required": []string{"kind", "bark"}, "properties": M{"kind": M{"type": "string"}, "bark": M{"type": "boolean"}}}
+		files["cat.json"] = M{"type": "object", "required": []string{"kind", "lives"}, "properties": M{"kind": M{"type": "string"}, "lives": M{"type": "integer"}}}
+		files["other.json"] = M{"components": M{"schemas": M{
+			"Pet": M{"oneOf": []any{M{"$ref": "dog.json"}, M{"$ref": "cat.json"}}, "discriminator": M{"propertyName": "kind", "mapping": M{"dog": "dog.json", "cat": "cat.json"}}},
+			"Err": M{"type": "object", "required": []string{"decoy"}, "properties": M{"decoy": M{"type": "string"}}}}}}
+		errDef := func() M {
+			return M{"type": "object", "required": []string{"code"}, "properties": M{"code": M{"type": "integer"}, "reason": M{"type": "string"}}}
+		}
+		body := func(x any) M { return M{"application/json": M{"schema": x}} }
+		mk := func(errRef func() any) M {
+			pet := M{"$ref": "other.json#/components/schemas/Pet"}
+			paths := M{"/a": M{"post": M{"requestBody": M{"required": true, "content": body(pet)}, "responses": M{"200": M{"description": "ok", "content": body(errRef())}}}}}
+			if c.N == 2 {
+				paths = M{"/a": M{"post": M{"requestBody": M{"required": true, "content": body(pet)}, "responses": M{"200": M{"description": "ok"}}}},
+					"/b": M{"get": M{"responses": M{"200": M{"description": "ok", "content": body(errRef())}, "default": M{"description": "e", "content": body(errRef())}}}}}
+			}
+			return doc(c.Kind, paths, M{"Err": errDef()})
+		}
+		root = mk(func() any { return M{"$ref": "#/components/schemas/Err"} })
+		// the local reference replaced by a copy of its target
+		inlined = mk(func() any { return errDef() })
 	case "cross":
 		other := M{}
 		for i := 1; i < c.N; i++ {
@@ -402,12 +428,17 @@ func Check(r *core.Run) error {
 		pr := parseDoc(root, files, limit)
 		col.mark("end", 0)
 		installHooks(nil)
-		pi := parseDoc(inl, nil, 1000)
+		// (the twin of a "mapping" case inlines the local reference only: it still needs the files)
+		var inlFiles map[string]M
+		if c.Shape == "mapping" {
+			inlFiles = files
+		}
+		pi := parseDoc(inl, inlFiles, 1000)
 		pe := parseResult{outcome: "na"}
 		if pr.api != nil {
 			pe = reparseExpanded(pr.api)
 		}
-		gr, gi := genOutcome(root, files), genOutcome(inl, nil)
+		gr, gi := genOutcome(root, files), genOutcome(inl, inlFiles)
 		installHooks(col.sink)
 		b, _ := json.Marshal(M{"k": "case", "kind": c.Kind, "shape": c.Shape, "n": c.N, "outcome": pr.outcome, "outInl": pi.outcome, "gr": gr, "gi": gi,
 			"pr": Hash(pr.proj), "pi": Hash(pi.proj), "pe": Hash(pe.proj), "ctx": 0, "loc": "", "ptr": "", "depthLeft": 0, "stack": 0, "limit": 0})
